@@ -79,18 +79,34 @@ def nseg(c, n):
 
 
 # ------------------------------------------------------------------ scripted masters
-def download_script(c, f, repeats=None, empty_ok=False):
-    """the standard procedure; repeats: {section index (1-based): number of negative section acknowledgements}"""
+def download_script(c, f, repeats=None, empty_ok=False, pace=0, think=0):
+    """the standard procedure; repeats: {section index (1-based): number of negative section acknowledgements};
+    pace: milliseconds of (virtual) time between two runs of the slave task; think: milliseconds the master takes to answer
+    (both below the supervision timeout, so a procedure-following master still has to get the whole file)"""
     repeats = repeats or {}
-    steps = [("rx", m_select(c, f), "select"), ("rx", m_callfile(c, f), "callfile")]
+    steps = [("rx", m_select(c, f), "select")]
+
+    def rx(a, tag):
+        if think:
+            steps.append(("adv", think, "think"))
+        steps.append(("rx", a, tag))
+
+    def pump(n):
+        if pace:
+            for _ in range(n):
+                steps.append(("adv", pace, "pace"))
+                steps.append(("run", 1, "segments"))
+        else:
+            steps.append(("run", n, "segments"))
+    rx(m_callfile(c, f), "callfile")
     for k, n in enumerate(f.lens, 1):
-        steps.append(("rx", m_callsec(c, f, k), "callsec"))
-        steps.append(("run", nseg(c, n) + 1, "segments"))
+        rx(m_callsec(c, f, k), "callsec")
+        pump(nseg(c, n) + 1)
         for _ in range(repeats.get(k, 0)):
-            steps.append(("rx", m_ack(c, f, k, 4), "negack"))
-            steps.append(("run", nseg(c, n) + 1, "segments"))
-        steps.append(("rx", m_ack(c, f, k, 3), "acksec"))
-    steps.append(("rx", m_ack(c, f, len(f.lens) + 1, 1), "ackfile"))
+            rx(m_ack(c, f, k, 4), "negack")
+            pump(nseg(c, n) + 1)
+        rx(m_ack(c, f, k, 3), "acksec")
+    rx(m_ack(c, f, len(f.lens) + 1, 1), "ackfile")
     return steps
 
 
@@ -302,6 +318,12 @@ def gen(rng, quick):
         if sum(sh) <= 3000:
             rep = {rng.range(1, len(sh)): rng.range(1, 2)}
             out.append(("dl.repeat.%d" % i, "dl", True, c0, f, download_script(c0, f, rep), 1))
+    # (1b) the same procedure in (virtual) real time: a slave task every 100 ms, a master that takes up to just under the
+    #      supervision timeout to answer -- sections that take longer than the timeout to transmit must still arrive
+    for i, (sh, pace, think) in enumerate([([8192, 7081, 100], 100, 0), ([3, 300, 5], 0, c0.timeout - 1), ([7316, 7317], 100, 2000), ([500, 20000], 150, 10)] +
+                                          ([] if quick else [([65535], 100, 0), ([8192] * 8, 99, 2999), ([236 * 31, 236 * 30], 100, 2899)])):
+        f = File(sh, seed=100 + i)
+        out.append(("dl.paced.%d" % i, "dl", True, c0, f, download_script(c0, f, {1: 1} if i % 2 else None, pace=pace, think=think), 1))
     # (2) address sizes x maximum ASDU sizes
     for cot in (1, 2):
         for ca in (1, 2):
